@@ -27,6 +27,18 @@ CHECKS["C01"] = dict(
     design="3/C01",
 )
 
+CHECKS["C05"] = dict(
+    technique="symbolic tensor execution of the real split routines with LAPACK contract stubs + linear Nullstellensatz certificates (z3 QF_LRA); concolic execution (z3 QF_NRA path conditions) of the generic and numba truncation kernels on symbolic singular values",
+    text="Bounded symbolic model checking. (a) Tensor.split / tensor_split / array_split run on symbolic rank-2/3 tensors for the method x absorb x get table with "
+         "LAPACK replaced by contract stubs; reconstruction, label bookkeeping and every isometry flag are certified modulo the stub contracts for all entry values. "
+         "(b) both truncation implementations run path-by-path on symbolic ordered singular values and a symbolic cutoff for all cutoff modes, caps and renorm powers; "
+         "the kept count is proved minimal by the documented rule, the kept values are the leading prefix, the reported error equals the discarded weight and the two "
+         "implementations agree on every path.",
+    note="Trusted: z3, qv engines, LAPACK meeting its contracts (stubs), Eckart-Young (cited). Abstracted: machine-eps regularisation = 0, QR stub has positive diagonal, "
+         "singular values strictly positive in family (a). Outside: rounding/precision, randomized and iterative drivers, n > 5 singular values.",
+    design="3/C05",
+)
+
 NA = {}
 
 
